@@ -7,7 +7,8 @@
            form a DAG
   SEQCAP   the cumulative element count is compared with max_seq_size before more elements are announced
   ALLOC    allocation-capable callees on the decode path: only error constructors, plus the reader scratch resize
-           which is dominated by the max_alloc_size test
+           which is dominated by the max_alloc_size test; and a DeError is built only inside a closure that returns it
+           (ok_or_else / map_err) or where every path returns Err - never eagerly on a path that can still return Ok
   LOOP     every CFG cycle on the decode path contains an input-consuming step or a bounded iterator
 It does NOT decide stack bytes per frame, behaviour of dependencies/visitors, or total work as a number.
 """
